@@ -76,9 +76,14 @@ func TestC08(t *testing.T) {
 		var sc *Scenario
 		var info HostileInfo
 		switch rapid.IntRange(0, 7).Draw(rt, "family") {
-		case 0: // every era in mainnet's order (legacy graders, burns, PEG bank, 2.0, 2.0.2, mint, PIP-10)
-			sc = GenTimelineScenario(rt, DefaultCfg())
-			info.Kinds = []string{"timeline-all-eras"}
+		case 0: // every era in mainnet's order (legacy graders, burns, PEG bank, 2.0, 2.0.2, mint, PIP-10), with hostile entries
+			sc = GenTimelineScenarioWith(rt, DefaultCfg(), func(w *World, b *Block) {
+				if rapid.IntRange(0, 3).Draw(rt, "hostileHere") == 0 {
+					hi := w.AddHostile(b, st, 3)
+					info.Kinds = append(info.Kinds, hi.Kinds...)
+				}
+			})
+			info.Kinds = append(info.Kinds, "timeline-all-eras")
 			info.Structured = 1
 		case 1: // activation alignments, developer payouts, zeroing with prior balances, snapshots
 			sc, _ = GenIssuanceScenario(rt, st)
